@@ -12,7 +12,7 @@ EXPLANATION = (
     'replica holds nothing, and merge skips remote deletes on, and it is a strict `ts < cut-off` test, with the purge keeping a '
     'tombstone exactly when the predicate is false and every tombstone taken out being kept or reported; P3 the cut-off is a MIN over all per-source maps (zero stamp for a missing '
     'source) minus the constant FORGIVENESS_PERIOD (3600 s in the shipped configuration) with a saturating subtraction; '
-    'P4 actor side (re-add on failed purge, keys = purge result) is C02.O3. NOT decided: the cluster-level equivalence of '
+    'P5 every mutator keeps the live map and the tombstone map exclusive (a new stamp is stored in one only after the key left the other), so a purge can never hand a live key to storage; P4 actor side (re-add on failed purge, keys = purge result) is C02.O3. NOT decided: the cluster-level equivalence of '
     'purging and non-purging runs.')
 # P3 also: the cut-off table has a single writer (the cut-off computation)
 ASSUMPTIONS = ['operations reach every replica within the forgiveness period (property precondition)']
@@ -66,6 +66,12 @@ def check(ctx):
            ' — purge must remove tombstones only; mutating live entries / version stamps changes what is live or what is refused'),
            {'effects': {str(k): v for k, v in eff.items()}})
 
+    # ---- P5: purge may only ever see tombstones of keys that are not live: entries / dead are kept exclusive by every mutator
+    import lww
+    mbodies = [facts.body(OS + x) for x in ('insert_with_source', 'delete_with_source', 'merge')]
+    if all(mbodies):
+        nx = lww.check_exclusive_maps(ctx, facts, 'C08.P5', mbodies)
+        ctx.floor('C08.P5', 'new-stamp stores into entries / dead', nx, 4)
     # ---- P2 ---------------------------------------------------------------------
     users = {'purge_old_deletes': purge, 'will_apply': facts.body(OS + 'will_apply'),
              'merge': facts.body(OS + 'merge')}
